@@ -123,6 +123,22 @@ structure Cfg where
   adminSkipsEmpty : Bool
   writeSkipsEmpty : Bool
 
+/-- GENERATED: the shape of the generic traversal `ast.Walk` (internal/sqlparse/ast/visit.go) as the
+translator reads it.  `walk` above is the plain recursion "the node, then every child of every visited
+field, to any depth"; it mirrors the Go function only if the Go function carries no budget:
+no parameter besides `(node, fn)`, no return-before-descending other than the nil test and the
+callback's own answer, and a loop that recurses into every element of `node.Children()`. -/
+structure WalkFacts where
+  recursor : String
+  extraParams : Nat
+  nilGuard : Bool
+  pruneGuard : Bool
+  otherGuards : List String
+  allChildren : Bool
+
+def WalkFacts.unbounded (w : WalkFacts) : Bool :=
+  w.extraParams == 0 && w.otherGuards.isEmpty && w.allChildren
+
 def emit (skipEmpty : Bool) (name : String) (m : Mode) : List Usage :=
   if skipEmpty && name == "" then [] else [{ name := name, mode := m }]
 
